@@ -25,6 +25,7 @@ def jobs(tier):
     js.append(job(K, "k_wrap_splice", "L1/symbolic-line", dict(max_len=5000 if t else 1000), max_seconds=ms))
     js.append(job(K, "k_any_split", "L1/any-split", dict(max_len=5000 if t else 1000), max_seconds=ms))
     js.append(job(K, "k_any_split", "L1/any-two-splits", dict(max_len=5000 if t else 1000, splits=2), max_seconds=ms))
+    js.append(job(M, "c09_big", "index-width/12-and-1001-atoms", {}, max_seconds=ms))
     js.append(job(M, "c09_lengths", "lengths/sweep", dict(kmax=150), max_seconds=ms))
     js.append(job(M, "c09_lengths", "lengths/sweep-1e300", dict(kmax=80 if t else 30, big=True), max_seconds=ms))
     return js
